@@ -860,7 +860,7 @@ def c17_streams(ctx):
         xsdish = r.random() < 0.6
         ast, p, alpha = gen_pattern(ctx, xsd=xsdish, alphabet=r.choice(["abc", "ab$", "a^b", "ab"]))
         f = r.choice(["", "i", "s", "m", "x", "q", "iq"])
-        s = rand_input(ctx, alpha, 7)
+        s = rand_input(ctx, alpha + ("\n\r" if "s" in f else ""), 7)
         cs = []
         pesc = c17_scan(p)[1] if "q" not in f else p
         for api, repl in apis:
@@ -941,6 +941,11 @@ def c18_streams(ctx):
         x = r.random()
         if x < 0.25 and nobj > 1:
             objs[1] = objs[0]           # the same pattern compiled twice
+        elif x < 0.6 and nobj > 2:      # names that exist as a category but not as a block, around a pattern using the category
+            cat = r.choice(["Lu", "Ll", "Nd", "L", "Zs"])
+            objs[0] = ("\\p{Is%s}a" % cat, "", "ab", "xp")
+            objs[1] = ("\\p{%s}a" % cat, "", "ab", "xp")
+            objs[2] = ("\\p{Is%s}a" % cat, "", "ab", "xp")
         elif x < 0.5 and nobj > 1:      # the same (pattern, flags) under both dialects, where the dialects differ
             p = r.choice(C18_DIALECT_POOL)
             f = r.choice(["", "", "i", "s"])
@@ -1043,7 +1048,11 @@ def c18_oracle(ctx, g):
         if kind == "drop":
             continue
         fa = answers[ai]
+        fm = g.model[1 + ai] if 1 + ai < len(g.model) else fa
         ai += 1
+        if fm != fa and fm.split(":")[0] != fa.split(":")[0] and not out:
+            # the fresh single call itself depends on what the process did before (the model is a pure function of the request)
+            out.append(f"history ({g.meta['mode']}): the single call {g.cases[ai].pattern!r} ({g.cases[ai].dialect}) answers {fa[:40]!r} in this process, the pure-function model {fm[:40]!r}: the result depends on earlier compilations")
         cerr = fa in ("ERR:Syntax", "ERR:InvalidFlags")      # the object itself did not compile
         if kind == "call":
             want = "CERR" if cerr else fa if fa in ("T", "F") else ("ERR" if fa.startswith("ERR") else fa)
